@@ -211,6 +211,15 @@ func TestC02(t *testing.T) {
 			for ei, ev := range events {
 				lbl := "sched"
 				if ev.block != nil {
+					// a competing block of the same account at the same height (its owner signed twice) reaches
+					// this follower first; the producer confirmed the other one and its choice is final
+					if kp := h.W.Keys.ByAddr[ev.block.Address]; kp != nil && !types.IsEmbeddedAddress(ev.block.Address) &&
+						ev.block.Difficulty == 0 && c.Weighted(lbl+".sibling", 5, 1) == 1 {
+						sib := ev.block.Copy()
+						sib.Nonce.Data[c.Pick(lbl+".sib.byte", 8)] ^= byte(c.Int(lbl+".sib.x", 1, 255))
+						sim.ResignBlock(sib, kp)
+						f.gossip(sib, "sibling")
+					}
 					switch c.Weighted(lbl+".gossip", 3, 2, 2) {
 					case 0: // never gossiped: arrives only inside its momentum
 					case 1:
@@ -279,7 +288,7 @@ func TestC02(t *testing.T) {
 			c.Class("ack-depth>0")
 		}
 		n := 0
-		for _, k := range []string{"batch>1", "gossip-early", "restart", "ack-depth>0", "gossip-late", "warm-views"} {
+		for _, k := range []string{"batch>1", "gossip-early", "restart", "ack-depth>0", "gossip-late", "warm-views", "gossip-sibling"} {
 			if features[k] {
 				n++
 			}
@@ -291,4 +300,10 @@ func TestC02(t *testing.T) {
 		c.R.Count("momentums", h.Momentums)
 		_ = types.ZeroHash
 	})
+}
+
+// TestC02Reorg: the "produced by one honest node, accepted by every other" clause for a node that
+// reorganised before producing (same scenario as C06, reported under C02).
+func TestC02Reorg(t *testing.T) {
+	pbt.Check(t, "C02", func(c *pbt.C) { reorgScenario(c, "C02", fullCompare) })
 }
